@@ -1306,7 +1306,8 @@ func (g *generator) writeExpressionAttribute(indentLevel int, elementName string
 		return err
 	}
 	// Value.
-	if (elementName == "a" && attr.Name == "href") || (elementName == "form" && attr.Name == "action") {
+	// HTML element and attribute names are case-insensitive.
+	if (strings.EqualFold(elementName, "a") && strings.EqualFold(attr.Name, "href")) || (strings.EqualFold(elementName, "form") && strings.EqualFold(attr.Name, "action")) {
 		if err := g.writeExpressionAttributeValueURL(indentLevel, attr); err != nil {
 			return err
 		}
